@@ -49,10 +49,10 @@ Print Assumptions C12_wf_partial.
 Theorem C12_wf_repaired : forall g size now os,
   cfg_ok g -> size <> 0%N ->
   fix_dup g = true -> fix_rev g = true -> fix_children g = true ->
-  Forall shape_ok os ->
+  Forall shape_ok os -> Forall norepl os ->
   chain_wf g (run_ops g (created g size now) os).
 Proof.
-  intros g size now os H1 H2 F1 F2 F3 Hs. apply InvS_facts. apply C12_wf_thm; try assumption.
+  intros g size now os H1 H2 F1 F2 F3 Hs Hn. apply InvS_facts. apply C12_wf_thm; try assumption.
   apply ok_hist_repaired; try assumption. apply created_inv; assumption.
 Qed.
 Print Assumptions C12_wf_repaired.
